@@ -120,6 +120,7 @@ func checkC04(c CaseC04, info *Info) *Failure {
 		if err != nil {
 			return failf("encode-error", "%s doc %q: %v", mode, doc, err)
 		}
+		disturb()
 		got, terr := rawTokens(x)
 		if terr != nil {
 			return failf("not-well-formed", "%s doc %q -> %q: %v", mode, doc, x, terr)
@@ -133,7 +134,7 @@ func checkC04(c CaseC04, info *Info) *Failure {
 	info.ClassIf(ma, ">=2 attributes")
 	info.ClassIf(eb, "comment/PI/directive between elements")
 	info.ClassIf(lt, "leading text with children")
-	info.ClassIf(c.Doc.countElems() >= 34, "wide element")
+	info.ClassIf(c.Doc.countElems() >= 11, "wide element (10 or more children somewhere)")
 	info.NonTrivial(nc || ma || eb || lt)
 	return nil
 }
